@@ -28,6 +28,8 @@ package reconciler
 //@ func (*watchers).getChangedObjects
 //@   props C14
 //@   requires state: w.ch != nil && !held(w.mu)
+//@   guarded ch by mu
+//@   guarded run by mu
 //@   modifies w.*
 //@   ensures copy:    *result == old(*w.ch)
 //@   ensures swapped: w.ch != nil && fresh(w.ch) && fresh(result) && w.ch != result
@@ -42,6 +44,7 @@ package reconciler
 //@ func (*watchers).running
 //@   props C14
 //@   requires state: !held(w.mu)
+//@   guarded run by mu
 //@   modifies w.mu
 //@   ensures value: result == old(w.run) && !held(w.mu)
 //@ end
@@ -121,4 +124,37 @@ package reconciler
 //@   ensures foreign: !first(Valid) && !last(Valid) ==> len(w.ch.IngressesUpd) == old(len(w.ch.IngressesUpd)) && len(w.ch.IngressesAdd) == old(len(w.ch.IngressesAdd)) && len(w.ch.IngressesDel) == old(len(w.ch.IngressesDel))
 //@   at call IsValidIngress#1 assert old-first: $arg1 == oldIng
 //@   at call IsValidIngress#2 assert new-second: $arg1 == newIng
+//@ end
+
+// ---------------------------------------------------------------------------
+// C08 — an update event is let through when the Ingress is selected before *or*
+// after the change (leaving the class must reach the handler, which removes it)
+//@ func (*watchers).handlersIngress$6
+//@   props C08
+//@   ensures either:  result == (first(Valid) || (calls(Valid) == 2 && last(Valid)))
+//@   ensures asked:   calls(Valid) >= 1 && (!first(Valid) ==> calls(Valid) == 2)
+//@   at call IsValidIngress#1 assert old: iface($arg1) == ue.ObjectOld
+//@   at call IsValidIngress#2 assert new: iface($arg1) == ue.ObjectNew
+//@ end
+//@ func (*watchers).handlersIngress$4
+//@   props C08
+//@   ensures asked: calls(Valid) == 1 && result == last(Valid)
+//@   at call IsValidIngress#1 assert obj: iface($arg1) == ce.Object
+//@ end
+//@ func (*watchers).handlersIngress$5
+//@   props C08
+//@   ensures asked: calls(Valid) == 1 && result == last(Valid)
+//@   at call IsValidIngress#1 assert obj: iface($arg1) == de.Object
+//@ end
+
+// ---------------------------------------------------------------------------
+// C13 — the full sync requested on leader acquisition goes through the rate
+// limiter like every other reconciliation request
+//@ count QAdd = (workqueue.TypedRateLimitingInterface).Add
+//@ count QAddAfter = (workqueue.TypedRateLimitingInterface).AddAfter
+//@ func (*IngressReconciler).leaderChanged
+//@   props C13
+//@   requires unlocked: r.watchers != nil && !held(r.watchers.mu)
+//@   ensures limited: calls(QAdd) == 0 && calls(QAddAfter) == 0 && calls(Enqueue) <= 1
+//@   at call AddRateLimited#1 assert full: $arg1.fullsync
 //@ end
